@@ -1008,6 +1008,12 @@ EXTRACTORS["C03"] = EXTRACTORS["C03"] + [GEN_SRC["SrcSampledGet"], GEN_SRC["SrcO
 # Thm/C06.lean imports RbV.Thm.GenSrcFmd* and restates the theorems
 GEN_SRC.update({n: gen_src(n) for n in ("SrcFmdExt", "SrcFmdSmems", "SrcFmdAllSmems")})
 EXTRACTORS["C06"] = EXTRACTORS.get("C06", []) + [GEN_SRC[n] for n in ("SrcFmdExt", "SrcFmdSmems", "SrcFmdAllSmems")]
+# soft: the unconditional step-by-step equality of `smems` with `SmemModel.smems` (every `l`, dead start included); the hard
+# obligations are `fmd_smems_source_eq_model` (under "nothing is reported when pattern[i] does not occur") and
+# `fmd_smems_source_correct` in Thm/C06.lean
+SOFT_FMD_SMEMS = soft_modules(["RbV.Thm.GenSrcFmdSmemsModel"], "the text of `FMDIndex::smems` no longer follows `SmemModel.smems` step "
+                              "by step on every input (the property-level theorem `fmd_smems_source_correct` is checked separately)")
+EXTRACTORS["C06"] = EXTRACTORS["C06"] + [SOFT_FMD_SMEMS]
 
 # genfmd: `shortest_unique_substrings` (C03) — Thm/C03.lean imports RbV.Thm.GenSrcSus and restates
 GEN_SRC.update({n: gen_src(n) for n in ("SrcSus",)})
@@ -1075,6 +1081,8 @@ EXTRACTORS["C09"] = EXTRACTORS["C09"] + [GEN_SRC[n] for n in ("SrcMyersSimpleNew
 # genlong: C10 — the cursor moves of the single-word traceback handler; Thm/C10.lean imports RbV.Thm.GenSrcMyersTb and restates
 GEN_SRC.update({n: gen_src(n) for n in ("SrcMyersTbState", "SrcMyersTbShort")})
 EXTRACTORS["C10"] = EXTRACTORS["C10"] + [GEN_SRC[n] for n in ("SrcMyersTbState", "SrcMyersTbShort")]
+GEN_SRC.update({n: gen_src(n) for n in ("SrcMyersTbMask", "SrcMyersTbShort2")})
+EXTRACTORS["C10"] = EXTRACTORS["C10"] + [GEN_SRC[n] for n in ("SrcMyersTbMask", "SrcMyersTbShort2")]
 
 
 # genprob: log-space probability arithmetic (C15) — dialect "prob" of tools/rs2lean_genprob.py (`f64` abstract);
@@ -1093,12 +1101,15 @@ EXTRACTOR_MODULE = {"gen_complement": "Gen.Complement", "gen_dna2int": "Gen.Dna2
                     "gen_limits": "Gen.Limits", "gen_tbcodes": "Gen.TbCodes", "gen_occ": "Gen.Occ", "gen_saiswidth": "Gen.SaisWidth"}
 # gensa: the suffix-array construction (C03) — dialect module tools/rs2lean_gensa.py; Thm/C03.lean imports RbV.Thm.GenSrcLcp (…)
 TRANSLATOR_MODULES.append("rs2lean_gensa")
-GEN_SRC.update({n: gen_src(n) for n in ("SrcLcp", "SrcTransform", "SrcPosTypes", "SrcSaisBuckets")})
-EXTRACTORS["C03"] = EXTRACTORS["C03"] + [GEN_SRC["SrcAlphabet"]] + [GEN_SRC[n] for n in ("SrcLcp", "SrcTransform", "SrcPosTypes", "SrcSaisBuckets")]
+GEN_SRC.update({n: gen_src(n) for n in ("SrcLcp", "SrcTransform", "SrcPosTypes", "SrcSaisBuckets", "SrcSaisCalcPos", "SrcSaisLms")})
+EXTRACTORS["C03"] = EXTRACTORS["C03"] + [GEN_SRC["SrcAlphabet"]] + [GEN_SRC[n] for n in ("SrcLcp", "SrcTransform", "SrcPosTypes", "SrcSaisBuckets", "SrcSaisCalcPos", "SrcSaisLms")]
 SOFT_TRANSFORM = soft_modules(["RbV.Thm.GenSrcTransformModel"], "the mirror model `Sais.transformText` no longer gives the numbers of "
                                 "`transform_text` (the property-level theorem `transform_text_source_eq_model`, `Transform.Ok`, is "
                                 "checked separately)")
 EXTRACTORS["C03"] = EXTRACTORS["C03"] + [SOFT_TRANSFORM]
+SOFT_LCP = soft_modules(["RbV.Thm.GenSrcLcpModel"], "the mirror model `Kasai.kasaiGo` no longer follows `lcp` step by step (the "
+                        "property-level theorem `lcp_source_exact` is model-free and checked separately)")
+EXTRACTORS["C03"] = EXTRACTORS["C03"] + [SOFT_LCP]
 
 # genalign: the pairwise aligner (C01; the traceback cell / matrix part also C02) — dialect "align" of tools/rs2lean_genalign.py;
 # Thm/C01.lean imports RbV.Thm.GenSrcPw* and restates the theorems
@@ -1124,6 +1135,18 @@ def _genband_unit(unit_name):
 
 
 EXTRACTORS["C02"] = EXTRACTORS["C02"] + [_genband_unit("SrcBand")]
+# genleft: leftovers of the earlier translation builders — tools/rs2lean_genleft.py (dialect "px": expression-bodied
+# functions; units of genio's sub-dialect "io"); docs/notes/GEN.md, section "genleft"
+TRANSLATOR_MODULES.append("rs2lean_genleft")
+GEN_SRC.update({n: gen_src(n) for n in ("SrcSbRankOrd",)})
+EXTRACTORS["C17"] = EXTRACTORS["C17"] + [GEN_SRC["SrcSbRankOrd"]]
+GEN_SRC.update({n: gen_src(n) for n in ("SrcOrfNew",)})
+EXTRACTORS["C20"] = EXTRACTORS["C20"] + [GEN_SRC["SrcOrfNew"]]
+GEN_SRC.update({n: gen_src(n) for n in ("SrcIdxFaIter",)})
+EXTRACTORS["C12"] = EXTRACTORS["C12"] + [GEN_SRC["SrcIdxFaIter"]]
+GEN_SRC.update({n: gen_src(n) for n in ("SrcFmAccess",)})
+EXTRACTORS["C06"] = EXTRACTORS["C06"] + [GEN_SRC["SrcOcc"], GEN_SRC["SrcPrescan"], GEN_SRC["SrcLess"], GEN_SRC["SrcFmAccess"]]
+EXTRACTORS["C05"] = EXTRACTORS["C05"] + [GEN_SRC["SrcFmAccess"]]
 
 
 def main():
